@@ -611,6 +611,41 @@ func genG03(repo string, w *Out) error {
 		}
 	}
 	w.DefBool("copy_phase_sets_no_deadline", noDl)
+	// the reader the request head is parsed with: bufio.NewReader(conn) (4096) directly on the connection
+	npc, err := pc.Func("newProxyConn")
+	if err != nil {
+		return err
+	}
+	crSize := int64(-1)
+	limited := false
+	for _, c := range g03Calls(pc, npc.Body) {
+		switch {
+		case c.src == "bufio.NewReader(conn)":
+			crSize = 4096 // bufio's defaultBufSize
+		case c.src == "bufio.NewReader(lr)" && strings.Contains(pc.Src(npc.Body), "lr := &io.LimitedReader{R: conn, N: math.MaxInt64}"):
+			// a LimitedReader in between only caps a Read by the remaining request-head budget
+			// (http.DefaultMaxHeaderBytes + 4096 per head): no effect on heads below that limit
+			crSize = 4096
+			limited = true
+		case strings.HasPrefix(c.src, "bufio.NewReaderSize(conn, "):
+			ast.Inspect(npc.Body, func(x ast.Node) bool {
+				if ce, ok := x.(*ast.CallExpr); ok && pc.Src(ce.Fun) == "bufio.NewReaderSize" && len(ce.Args) == 2 {
+					if v, e := g03EvalInt(pc, ce.Args[1]); e == nil {
+						crSize = v
+						if v < 16 {
+							crSize = 16 // bufio's minimum
+						}
+					}
+				}
+				return true
+			})
+		}
+	}
+	if crSize < 0 {
+		return fmt.Errorf("proxy_conn.go newProxyConn: bufio.NewReader(conn) not found")
+	}
+	w.DefN("client_reader_size", uint64(crSize))
+	w.DefBool("client_reader_head_budget", limited)
 	w.DefBool("tunnel_drain_first", df1 && df2)
 	w.DefBool("up_copier_reads_bufio", ub1 || ub2)
 
